@@ -10,6 +10,12 @@ oracle     independent of the model, straight from the property text: a world in
            has a cycle / missing / misdeclared directory MUST be rejected by the real compiler; the three copies
            of every world (directories created in different orders, fresh hash keys) must give the same verdict
            and the same diagnostics.
+entry points   `pipeline.rs` builds a package's dependency environments in two copies of one loop: `typecheck_packages`
+           (behind `compile` and `typecheck_with_packages`) and the editor twin `typecheck_with_packages_and_results`
+           (behind hover / completions of every file with an import).  Every world, and every project of the C14 visibility
+           catalogues (lookup forms × owner of the type × user; use forms × who imports), goes through all of them
+           (harness/src/c16e.rs, `c16.ep.tsv`): the verdict class must equal `compile`'s (oracle `entry-points-agree`,
+           model-free), the must-reject oracle is applied to each entry point's verdict, and the model is diffed against each.
 """
 import os, re
 import vlib
@@ -132,6 +138,91 @@ def norm_real(r):
     return "(reject " + " ".join(ws) + ")"
 
 
+ENTRY_POINTS = ["typecheck_with_packages", "typecheck_with_packages_and_results", "typecheck_with_packages_and_results(second file of Main)"]
+
+
+def verdict_kind(v):
+    if v == "(accept)":
+        return "accept"
+    if "(graph" in v:
+        return "graph-error"
+    if v.startswith("(panic") or v.startswith("(thread-panic"):
+        return "panic"
+    return "diagnostics"
+
+
+def entry_points(ctx, model, why_of):
+    """rows of c16.ep.tsv: id EP kind payload compile twp editor editor-alt alt-file raw×4 files"""
+    path = os.path.join(ctx.run_dir, "c16.ep.tsv")
+    rows = [r for r in (vlib.read_tsv(path) if os.path.exists(path) else []) if len(r) >= 9 and r[1] == "EP"]
+    stats = {"projects": len(rows), "by_kind": {}, "agree": {e: 0 for e in ENTRY_POINTS}, "compared": {e: 0 for e in ENTRY_POINTS},
+             "backend_only_diagnostics": 0, "verdict_classes": {}, "model_equal": {e: 0 for e in ENTRY_POINTS[:2]},
+             "model_compared": 0, "rejected_for_isolation_by_every_entry_point": 0}
+    tie_diffs = []
+    for r in rows:
+        r = r + [""] * (14 - len(r))
+        cid, kind, payload, alt = r[0], r[2], r[3], r[8]
+        comp = norm_real(r[4])
+        others = [norm_real(r[5]), norm_real(r[6]), norm_real(r[7]) if alt != "-" else None]
+        stats["by_kind"][kind] = stats["by_kind"].get(kind, 0) + 1
+        vk = verdict_kind(comp)
+        stats["verdict_classes"][vk] = stats["verdict_classes"].get(vk, 0) + 1
+        why = why_of.get(cid) or []
+        all_reject = comp != "(accept)"
+        for e, v, raw in zip(ENTRY_POINTS, others, (r[10], r[11], r[12])):
+            if v is None:
+                continue
+            stats["compared"][e] += 1
+            ename = e if e != ENTRY_POINTS[2] else f"{ENTRY_POINTS[1]} (entry file {alt})"
+            if v == "(accept)":
+                all_reject = False
+            if v.startswith("(panic") or v.startswith("(thread-panic"):
+                ctx.report({"oracle": "panic", "kind": "entry-point-panics", "entry": e}, f"{ename} panics instead of reporting an error",
+                           {"id": cid, "kind": kind, "world": payload, "observed": v, "files": vlib.unesc(r[13])})
+                continue
+            # the property, applied to what THIS entry point says
+            if why and v == "(accept)":
+                ctx.report({"oracle": "must-reject", "kind": "accepts-" + why[0][0], "entry": e},
+                           f"{ename} accepts a project the property forbids: {why[0][1]}",
+                           {"id": cid, "world": payload, "reasons": [w[1] for w in why], "observed": v, "compile": comp,
+                            "compile_diagnostics": vlib.unesc(r[9])[:600], "files": vlib.unesc(r[13])})
+            if v == comp:
+                stats["agree"][e] += 1
+                continue
+            if comp.startswith("(reject (graph (err other") and v == "(accept)":
+                # a diagnostic of match compilation: a stage the type-check entry points do not run
+                stats["backend_only_diagnostics"] += 1
+                stats["agree"][e] += 1
+                continue
+            a, b = verdict_kind(comp), verdict_kind(v)
+            dk = ("accepts-what-compile-rejects" if b == "accept" else "rejects-what-compile-accepts" if a == "accept"
+                  else "other-graph-error" if a == b == "graph-error" else "other-diagnostic-classes" if a == b else f"{a}-vs-{b}")
+            iso = "not imported" in vlib.unesc(r[9]) or any(k == "isolation" for k, _ in why)
+            ctx.report({"oracle": "entry-points-agree", "entry": e, "kind": dk},
+                       f"{ename} says {v} where compile says {comp} for the same project"
+                       + (" — import isolation depends on the entry point" if iso else ""),
+                       {"id": cid, "kind": kind, "world": payload, "compile": comp, "entry_point": ename, "entry_point_verdict": v,
+                        "compile_diagnostics": vlib.unesc(r[9])[:800], "entry_point_diagnostics": vlib.unesc(raw)[:800],
+                        "property_demands_rejection_because": [w[1] for w in why], "files": vlib.unesc(r[13])})
+        if all_reject and any(k == "isolation" for k, _ in why):
+            stats["rejected_for_isolation_by_every_entry_point"] += 1
+        # the model against every entry point (worlds only)
+        if kind == "world" and cid in model:
+            pred = model[cid][0]
+            stats["model_compared"] += 1
+            for e, v in zip(ENTRY_POINTS[:2], others[:2]):
+                if v == pred:
+                    stats["model_equal"][e] += 1
+                else:
+                    tie_diffs.append((e, cid, payload, v, pred))
+    for e, cid, payload, v, pred in tie_diffs[:10]:
+        ctx.broken_ties.append((f"world correspondence ({e})", f"{cid}: {payload} impl={v} model={pred}"))
+    stats["model_diffs"] = len(tie_diffs)
+    if not rows:
+        ctx.broken_ties.append(("entry points", "c16.ep.tsv is missing or empty: no world went through the editor entry point"))
+    return stats
+
+
 def run(ctx):
     import time
     t0 = time.time()
@@ -153,6 +244,7 @@ def run(ctx):
     flow_transitive = {}
     name_relations = {}
     diffs = []
+    why_of = {}
     for r in cases:
         cid, sexp, real_raw, shape, same = r[0], r[2], r[3], r[4], r[5]
         msgs = vlib.unesc(r[6]) if len(r) > 6 else ""
@@ -178,6 +270,7 @@ def run(ctx):
         outcomes[oc] = outcomes.get(oc, 0) + 1
         world = parse_sexp(sexp)
         why, reach = oracle(world)
+        why_of[cid] = why
         for p in world[1:]:
             rel_imps = p[2][1:]
             for it in p[3][1:]:
@@ -238,8 +331,10 @@ def run(ctx):
                             "oracle_demands_rejection_because": [w[1] for w in why], "diagnostics": msgs[:400]})
     for cid, sexp, real, pred, msgs in diffs[:10]:
         ctx.broken_ties.append(("world correspondence", f"{cid}: {sexp} impl={real} model={pred} diagnostics={msgs[:300]}"))
+    t5 = time.time()
+    ep = entry_points(ctx, model, why_of)
     cov = {
-        "evaluations": 3 * len(cases), "distinct_nontrivial": len(distinct),
+        "evaluations": 3 * len(cases) + sum(ep["compared"].values()), "distinct_nontrivial": len(distinct),
         "rule": "one case = one generated world (package layout × placements) compiled three times by the real pipeline::compile "
                 "(directories created in different orders, fresh thread); non-trivial = at least two packages and at least one "
                 "placed reference or impl; distinct by world text",
@@ -253,6 +348,16 @@ def run(ctx):
                      "model_run": round(t4 - t3, 1), "compare_and_oracle": round(time.time() - t4, 1)},
         "internal_error_followups": internal_followups,
         "impl_oracle_failures": len(ctx.violations),
+        "entry_points": dict(ep, rule="every world (copy 0, the directory `compile` just judged) and every project of the C14 catalogues "
+                             "`lookup_visibility_projects` + `import_rule_projects` through typecheck_with_packages and "
+                             "typecheck_with_packages_and_results (entry main.gom, and a second file of package Main when there is one); verdict class = "
+                             "accept / graph error with its names / set of diagnostic classes; `agree` counts equality with compile's class",
+                             theorem_tie="Props/C16.lean speaks about the decision logic (package_allowed, the lookup of a qualified path, the orphan "
+                             "rule, the merge check), which all entry points share; what differs per entry point is the loop that fills `deps` / "
+                             "`deps_interfaces`, which the model's `Ctx.deps` abstracts.  `model_equal` is the world tie stated per entry point: "
+                             "the model's verdict against typecheck_with_packages and against typecheck_with_packages_and_results (the tie against "
+                             "compile is `worlds_equal`)",
+                             seconds=round(time.time() - t5, 1)),
     }
     own_qual_main = sum(1 for r in cases if "(use 0 fn Main q)" in r[2])
     if internal_followups:
@@ -270,5 +375,6 @@ def run(ctx):
     ]
     tb = ["Lean 4 kernel", "axioms: " + ",".join(ctx.proof["axioms"] or ["none"]),
           "tools/extract.py gen_package_ids", "harness/src/c16.rs (world generator, source templates, message classification)",
+          "harness/src/c16e.rs (verdicts of typecheck_with_packages / typecheck_with_packages_and_results)",
           "tools/props/c16.py (declarative oracle)"]
     return ctx.finish("proof", cov, tb, "lake build GomlVerif.Props.C16 && #print axioms")
